@@ -1210,6 +1210,11 @@ func (m *metadataAPI) ResumePartition(streamName string, id int32, recovered boo
 	if err != nil {
 		return nil, err
 	}
+	// The partition is no longer paused: clear the flag on the protobuf too
+	// (it is shared with the replaced partition), otherwise a snapshot taken
+	// from now on restores the partition as paused and FetchMetadata keeps
+	// reporting it as paused.
+	partition.clearPaused()
 	// Update latest pause status change timestamp.
 	partition.pauseTimestamps.update()
 
